@@ -49,7 +49,7 @@ Proof.
   induction lit as [|p r IH]; intros H; [reflexivity|].
   cbn [forallb] in H. apply andb_prop in H as [Hp Hr]. specialize (IH Hr).
   destruct p as [s|c|n]; cbn [replacement_text map simp]; try (rewrite IH; reflexivity).
-  cbn [simple_piece] in Hp. apply negb_true_iff, orb_false_iff in Hp as [H38 H60].
+  cbn [simple_piece] in Hp. unfold markup_char in Hp. apply negb_true_iff, orb_false_iff in Hp as [H38 H60].
   rewrite H38, H60, IH. reflexivity.
 Qed.
 
@@ -119,35 +119,96 @@ Proof.
     destruct (str_eqb n n_quot); reflexivity.
 Qed.
 
-Theorem entity_value_refines (dtd : table) : simple_table dtd ->
-  forall fuel n, entity_value_from_name fuel dtd n = expand_entity fuel dtd n.
+Lemma refs_of_simp (l : list piece) : refs_of (map simp l) = refs_of l.
 Proof.
-  intros Hs. induction fuel as [|f IH]; intros n; [reflexivity|].
-  cbn [entity_value_from_name expand_entity]. rewrite entity_step by exact Hs.
-  apply bind_ext. intros body. apply norm_pieces_ext. exact IH.
+  induction l as [|p r IH]; [reflexivity|].
+  destruct p; cbn [map simp refs_of flat_map app] in *; unfold refs_of in IH; rewrite IH; reflexivity.
+Qed.
+
+(** the references of what an entity name denotes are [refers]-successors of the name *)
+Lemma entity_repl_refs (dtd : table) n body : simple_table dtd ->
+  entity_repl dtd n = Ok body -> forall m, In m (refs_of body) -> refers dtd n m.
+Proof.
+  intros Hs H m Hm. unfold entity_repl in H. destruct (declared dtd n) as [lit|] eqn:E.
+  - rewrite (replacement_simple lit (Hs n lit (declared_in _ _ _ E))) in H. injection H as <-.
+    exists lit. split; [exact E|]. rewrite <- refs_of_simp. exact Hm.
+  - exfalso. unfold predefined in H.
+    destruct (str_eqb n n_lt); [injection H as <-; destruct Hm|].
+    destruct (str_eqb n n_gt); [injection H as <-; destruct Hm|].
+    destruct (str_eqb n n_amp); [injection H as <-; destruct Hm|].
+    destruct (str_eqb n n_apos); [injection H as <-; destruct Hm|].
+    destruct (str_eqb n n_quot); [injection H as <-; destruct Hm|discriminate].
+Qed.
+
+Lemma norm_pieces_ext_in (e1 e2 : name -> ares str) (l : list piece) :
+  (forall n, In n (refs_of l) -> e1 n = e2 n) -> norm_pieces e1 l = norm_pieces e2 l.
+Proof.
+  induction l as [|p r IH]; intros H; [reflexivity|].
+  destruct p as [s|c|n]; cbn [norm_pieces refs_of flat_map app] in *.
+  - rewrite IH by exact H. reflexivity.
+  - rewrite IH by exact H. reflexivity.
+  - rewrite (H n) by (left; reflexivity). rewrite IH; [reflexivity|]. intros m Hm. apply H. right. exact Hm.
+Qed.
+
+Definition acyclic (dtd : table) : Prop := forall n, ~ reaches dtd n n.
+
+Lemma reaches_snoc dtd p n m : reaches dtd p n -> refers dtd n m -> reaches dtd p m.
+Proof.
+  intros H Hr. induction H as [a b Hab|a b k Hab Hbk IH].
+  - eapply reach_trans; [exact Hab|]. apply reach_step. exact Hr.
+  - eapply reach_trans; [exact Hab|]. apply IH. exact Hr.
+Qed.
+
+Lemma existsb_str_in (n : name) l : existsb (str_eqb n) l = true -> In n l.
+Proof.
+  induction l as [|x r IH]; cbn [existsb]; [discriminate|]. intros H. apply orb_prop in H as [H|H].
+  - left. symmetry. apply str_eqb_eq. exact H.
+  - right. auto.
+Qed.
+
+(** the stack of names being expanded never contains the name asked for when the table has no cycle, so
+    the recursion guard of [expand_entity] is silent and the expansion is the specification's *)
+Theorem entity_value_refines (dtd : table) : simple_table dtd -> acyclic dtd ->
+  forall fuel n parents, (forall p, In p parents -> reaches dtd p n) ->
+  m_expand_entity fuel dtd parents n = expand_entity fuel dtd n.
+Proof.
+  intros Hs Hac. induction fuel as [|f IH]; intros n parents Hp; [reflexivity|].
+  cbn [m_expand_entity expand_entity].
+  destruct (existsb (str_eqb n) parents) eqn:Ex.
+  { exfalso. apply existsb_str_in in Ex. exact (Hac n (Hp n Ex)). }
+  rewrite entity_step by exact Hs.
+  destruct (entity_repl dtd n) as [body| | |] eqn:Er; cbn [bind]; try reflexivity.
+  apply norm_pieces_ext_in. intros m Hm. apply IH.
+  pose proof (entity_repl_refs dtd n body Hs Er m Hm) as Hnm.
+  intros p Hin. apply in_app_or in Hin as [Hin|[<-|[]]].
+  - eapply reaches_snoc; [exact (Hp p Hin)|exact Hnm].
+  - apply reach_step. exact Hnm.
 Qed.
 
 Lemma not_cdata_is_cdata ty : m_not_cdata ty = negb (is_cdata ty).
 Proof. destruct ty as [[]|]; reflexivity. Qed.
 
-(** *** refinement at every fuel: no acyclicity needed *)
-Theorem normalized_value_refines_f (dtd : table) : simple_table dtd ->
+(** *** refinement at every fuel *)
+Theorem normalized_value_refines_f (dtd : table) : simple_table dtd -> acyclic dtd ->
   forall fuel ty lit, model_value_f fuel dtd ty lit = spec_value_f fuel dtd ty lit.
 Proof.
-  intros Hs fuel ty lit. unfold model_value_f, normalized_value_f, spec_value_f, cdata_value_f, attr_value_from_name.
+  intros Hs Hac fuel ty lit. unfold model_value_f, normalized_value_f, spec_value_f, cdata_value_f, attr_value_from_name.
   rewrite value_loop_fold. cbn [app]. rewrite bind_ret.
-  rewrite (norm_pieces_ext _ _ lit (entity_value_refines dtd Hs fuel)).
+  rewrite (norm_pieces_ext _ (expand_entity fuel dtd) lit)
+    by (intros n; apply (entity_value_refines dtd Hs Hac); intros p []).
   apply bind_ext. intros v. rewrite not_cdata_is_cdata, split_filter_join_tokenized.
   destruct (is_cdata ty); reflexivity.
 Qed.
 
 Lemma wf_simple_table dtd : wf_table dtd -> simple_table dtd.
 Proof. intros [_ _ H]. exact H. Qed.
+Lemma wf_acyclic_table dtd : wf_table dtd -> acyclic dtd.
+Proof. intros [_ H _]. exact H. Qed.
 
 Theorem normalized_value_refines_proof : forall dtd ty lit,
   wf_table dtd -> model_value dtd ty lit = spec_value dtd ty lit.
 Proof.
-  intros dtd ty lit H. apply (normalized_value_refines_f dtd (wf_simple_table dtd H)).
+  intros dtd ty lit H. apply (normalized_value_refines_f dtd (wf_simple_table dtd H) (wf_acyclic_table dtd H)).
 Qed.
 
 (** ** fuel *)
@@ -163,11 +224,6 @@ Proof.
     eexists; reflexivity.
 Qed.
 
-Lemma refs_of_simp (l : list piece) : refs_of (map simp l) = refs_of l.
-Proof.
-  induction l as [|p r IH]; [reflexivity|].
-  destruct p; cbn [map simp refs_of flat_map app] in *; unfold refs_of in IH; rewrite IH; reflexivity.
-Qed.
 
 Lemma predefined_no_refs n r : predefined n = Some r -> refs_of r = [].
 Proof.
@@ -177,13 +233,6 @@ Proof.
   destruct (str_eqb n n_amp); [injection H as <-; reflexivity|].
   destruct (str_eqb n n_apos); [injection H as <-; reflexivity|].
   destruct (str_eqb n n_quot); [injection H as <-; reflexivity|discriminate].
-Qed.
-
-Lemma reaches_snoc dtd p n m : reaches dtd p n -> refers dtd n m -> reaches dtd p m.
-Proof.
-  intros H Hr. induction H as [a b Hab|a b k Hab Hbk IH].
-  - eapply reach_trans; [exact Hab|]. apply reach_step. exact Hr.
-  - eapply reach_trans; [exact Hab|]. apply IH. exact Hr.
 Qed.
 
 Lemma declared_name_in (dtd : table) n : declared dtd n <> None -> In n (map fst dtd).
@@ -275,6 +324,6 @@ Proof.
     - intros n t Hn. apply (expand_entity_mono dtd _ n t Hn). unfold fuel_of. lia.
     - exact Hv. }
   split; [exact G|].
-  rewrite (normalized_value_refines_f dtd (wf_simple_table dtd Hwf)), G.
+  rewrite (normalized_value_refines_f dtd (wf_simple_table dtd Hwf) (wf_acyclic_table dtd Hwf)), G.
   symmetry. apply normalized_value_refines_proof. exact Hwf.
 Qed.
